@@ -7,6 +7,7 @@ against one application vs a fresh application per request + deep snapshot, (b) 
 schedules (c13_sched.py)."""
 import re
 import threading
+import zlib
 from collections import Counter
 
 import common  # noqa: F401
@@ -100,7 +101,8 @@ def served(ctx, spec, url, before):
     """module-level half of the ownership oracle: called after `url` was served, with the snapshot taken before"""
     after = M.snapshot_all()
     for label in M.changed(before, after):
-        _BREAKS.append({"label": label, "spec": spec, "url": url})
+        _BREAKS.append({"label": label, "spec": spec, "url": url,
+                        "value": zlib.crc32(repr(after.get(label)).encode())})
     return after
 
 
@@ -214,21 +216,28 @@ def _quiet(fn, *a):
 
 # ---- the run ----------------------------------------------------------------------------------------
 def explore(ctx, tier, search=False):
+    import time
     T.install()
-    rng = ctx.rng("c13")
+    t_start = time.time()
+    phases = ctx.extra.setdefault("phase_s", {})
+
+    def mark(name):
+        nonlocal t_start
+        phases[name] = round(phases.get(name, 0) + time.time() - t_start, 1)
+        t_start = time.time()
+    rng = ctx.rng("c13-search" if search else "c13")
     cases = []
     # fixed dataset, fixed request list: traced one by one, then as histories in several orders
     for url in F.FIXED_REQUESTS:
         traced_case(ctx, F.FIXED_SPEC, url, "fixed", cases)
-    n_specs = 12 if tier == "quick" else 120
-    if search:
-        n_specs *= 3
+    n_specs = 36 if search else 12 if tier == "quick" else 120
     specs = [F.rand_spec(rng) for _ in range(n_specs)]
     for spec in specs:
         for _ in range(10):
             url, kind = F.rand_request(rng, spec)
             traced_case(ctx, spec, url, kind, cases, tid=rng.randint(0, 9))
     run_correspondence(ctx, cases)
+    mark("traced requests + correspondence")
     # (a) histories
     order = list(F.FIXED_REQUESTS)
     history_case(ctx, F.FIXED_SPEC, order, "fixed-all")
@@ -242,6 +251,7 @@ def explore(ctx, tier, search=False):
             if rng.random() < 0.5:
                 urls.append(urls[0])
             history_case(ctx, spec, urls, "random")
+    mark("histories")
     # (o') module-level state: a container of a pydap module changed while a request was served = a store outside
     # `Owned t`; the code no longer has the discipline the noninterference theorem assumes.  Recorded as a
     # disagreement with the model (whose program stores only into objects of the request), then searched for a
@@ -256,11 +266,13 @@ def explore(ctx, tier, search=False):
                 "model": "every store goes to an object allocated by the request",
                 "meta": {"spec": first[0]["spec"], "urls": sorted(set(b["url"] for b in first))[:8]}})
         ctx.notes.append("module-level state written while serving: %s" % ", ".join(labels))
-        S.targeted(ctx, rng, list(_BREAKS), search=search)
+        S.targeted(ctx, rng, list(_BREAKS), search=search, seen=[(sp, u) for sp, u in _RECENT])
         del _BREAKS[:]
     ctx.extra["module_level_containers_watched"] = len(M.roots())
+    mark("targeted line-level search")
     # (b) schedules
     S.explore(ctx, tier, rng, specs, search=search)
+    mark("schedules")
 
 
 def run(ctx):
@@ -283,7 +295,9 @@ def run(ctx):
     ]
     ctx.proof_phase()
     explore(ctx, ctx.tier)
-    return ctx.finish(search=lambda c: explore(c, "thorough", search=True))
+    # failing-input search when the proof, the correspondence or the discipline broke without a wrong response yet:
+    # three times the datasets, the larger targeted line-level search, the middle schedule budget (~3-5 min)
+    return ctx.finish(search=lambda c: explore(c, c.tier, search=True))
 
 
 def replay(payload):
